@@ -1,6 +1,7 @@
 package main
 
 import (
+	"unicode/utf8"
 	"bufio"
 	"encoding/json"
 	"fmt"
@@ -146,7 +147,7 @@ func finishRun(e *Engine, results []*FnResult, ro runOpts) int {
 				continue
 			}
 			mine++
-			oe := oblEvidence{Name: o.Name, Kind: o.Kind, Status: o.Status, Solver: o.Solver, TimeS: round3(o.TimeS), Clause: o.Text, Detail: o.Detail}
+			oe := oblEvidence{Name: o.Name, Kind: o.Kind, Status: o.Status, Solver: o.Solver, TimeS: round3(o.TimeS), Clause: clipText(o.Text, 240), Detail: clipText(o.Detail, 400)}
 			solverTime += o.TimeS
 			if o.Status == "discharged" && (o.Kind == "vacuity" || o.Kind == "reach") {
 				if r.Contract != nil {
@@ -371,3 +372,16 @@ func finishRun(e *Engine, results []*FnResult, ro runOpts) int {
 }
 
 func round3(f float64) float64 { return float64(int(f*1000+0.5)) / 1000 }
+
+// clipText keeps evidence records small (a generated-code property has thousands of obligations whose clause text
+// runs to kilobytes; the full text is in the contract files and templates).
+func clipText(s string, n int) string {
+	if len(s) <= n {
+		return s
+	}
+	cut := n
+	for cut > 0 && !utf8.RuneStart(s[cut]) {
+		cut--
+	}
+	return s[:cut] + " …"
+}
